@@ -25,6 +25,7 @@ type c02Scenario struct {
 	Cap    int    `json:"cap"`
 	K      int    `json:"k"`
 	Serve  string `json:"serve"` // what the host does with the channel meanwhile: drain, feed, none
+	Lib    string `json:"lib,omitempty"` // run first, with its own (never cancelled) context, on the same environment
 	Trials int    `json:"trials"`
 	Bad    int    `json:"bad"`
 	First  string `json:"first_failure,omitempty"`
@@ -42,6 +43,12 @@ func c02Trial(sc *c02Scenario, trial int) string {
 		go func() {
 			e := env.NewEnv()
 			e.Define("ch", ch)
+			if sc.Lib != "" {
+				if _, lerr := vm.ExecuteContext(context.Background(), e, nil, sc.Lib); lerr != nil {
+					done <- res{fmt.Errorf("library failed: %v", lerr)}
+					return
+				}
+			}
 			_, err := vm.ExecuteContext(ctx, e, nil, sc.Src)
 			done <- res{err}
 		}()
@@ -104,6 +111,14 @@ func c02Stress(n int, outDir string) error {
 		{Name: "for-in over a channel that is never closed", Src: "for x in ch { }", Cap: 1, K: 4, Serve: "feed"},
 		{Name: "senders inside script functions and try blocks", Src: "func put(c) { try { c <- 1 } catch e { } }\nfor { put(ch) }", Cap: 1, K: 6, Serve: "drain"},
 		{Name: "script goroutines sending, main receiving its own channel", Src: "d = make(chan int64)\ngo func() { for { ch <- 1 } }()\ngo func() { for { ch <- 2 } }()\nx = (<- d)", Cap: 1, K: 3, Serve: "drain"},
+		// functions defined by an earlier run on the same environment (a library loaded once), called by the run that is cancelled
+		{Name: "library function without parameters spins", Lib: "func spin() { for { } }", Src: "spin()", Cap: 1, K: 2, Serve: "none"},
+		{Name: "library function with two parameters spins", Lib: "func spin(a, b) { for { a = b } }", Src: "spin(1, 2)", Cap: 1, K: 2, Serve: "none"},
+		{Name: "library function with five parameters spins", Lib: "func spin(a, b, c, d, e) { for { a = e } }", Src: "spin(1, 2, 3, 4, 5)", Cap: 1, K: 2, Serve: "none"},
+		{Name: "variadic library function spins", Lib: "func spin(xs...) { for { } }", Src: "spin(1, 2)", Cap: 1, K: 2, Serve: "none"},
+		{Name: "variadic library function blocked on a receive", Lib: "func wait(xs...) { return (<- ch) }", Src: "wait(1)", Cap: 0, K: 2, Serve: "none"},
+		{Name: "variadic library function called inside try", Lib: "func spin(xs...) { for i = 0; true; i++ { } }", Src: "try { spin() } catch e { }; for { }", Cap: 1, K: 2, Serve: "none"},
+		{Name: "library closure of five parameters recursing", Lib: "f = func(a, b, c, d, e) { return f(a, b, c, d, e + 0) }", Src: "func g() { return 1 }; for { g() }", Cap: 1, K: 2, Serve: "none"},
 		{Name: "nobody serves: blocked from the start", Src: "ch <- 1; ch <- 2; ch <- 3", Cap: 1, K: 3, Serve: "none"},
 	}
 	for _, sc := range scs {
